@@ -502,3 +502,15 @@ Proof.
   destruct (Hr (t :: ts') [] (S (length (t :: ts'))) Em ltac:(lia)) as [v' [Er Eu]].
   rewrite app_nil_r in Er. rewrite Er. simpl. eauto.
 Qed.
+
+(** the same under any module name of the cursor (positions then carry the name; the value is the same) *)
+Theorem print_then_read_module cm v : pv v = true -> clean (pr_str true v) = true ->
+  exists v', read_str cm None None (pr_str true v) = Ok v' /\ unpos v' = unpos v.
+Proof.
+  intros Hp Hc. destruct cm as [x|]; [|apply print_then_read; auto].
+  unfold read_str. destruct (tokenize_printed v Hp Hc) as [ts [Et Em]]. rewrite Et.
+  unfold read_all. destruct ts as [|t ts']. { destruct v; simpl in Em; try discriminate; destruct b; discriminate. }
+  destruct (pv_RP (Some x) v Hp) as [_ Hr].
+  destruct (Hr (t :: ts') [] (S (length (t :: ts'))) Em ltac:(lia)) as [v' [Er Eu]].
+  rewrite app_nil_r in Er. rewrite Er. simpl. eauto.
+Qed.
